@@ -34,6 +34,143 @@ def lexer_products(fx):
     return prod
 
 
+COUNTER = 'fresh_var_n'
+# the one take whose name cannot clash with names taken before the bump: (function, callee) -> (required template, reason)
+SCOPED = {('PyScriptGenerator::transpile_params', 'transpile_expr'): ('_', 'the name `_N` is a parameter of the def being generated; whatever the default value takes while it is '
+                                                                       'transpiled names a parameter of another def or a module-level helper with another prefix')}
+
+
+def fmt_literals(bs):
+    """literal pieces of a lowered format_args! template (length-prefixed pieces, bytes >= 0x80 are argument ops)"""
+    out, i = [], 0
+    while i < len(bs) and bs[i] != 0:
+        n = bs[i]
+        if n < 0x80:
+            out.append(bytes(bs[i + 1:i + 1 + n]).decode('utf-8', 'replace'))
+            i += 1 + n
+        else:
+            i += 1
+    return out
+
+
+def templates_of(fn):
+    """{line: first literal piece} for every format template of the function that mentions the counter (directly, or through a local bound to it)"""
+    locs = set()
+    for n in T.walk(fn['body']):
+        if n.get('k') == 'Let' and n.get('init') is not None:
+            i = T.peel(n['init'])
+            if i.get('k') == 'Field' and i.get('n') == COUNTER and n['pat'].get('k') == 'Bind':
+                locs.add(n['pat']['id'])
+    lines = set()
+    for n in T.walk(fn['body']):
+        if n.get('k') == 'Tup' and any('FormatLiteral' in m or m.endswith('format_args') for m in (n.get('m') or [])):
+            for a in n['a']:
+                a = T.peel(a)
+                if (a.get('k') == 'Field' and a.get('n') == COUNTER) or (a.get('k') == 'Local' and a.get('id') in locs):
+                    lines.add(n.get('l'))
+    out = {}
+    for n in T.walk(fn['body']):
+        if n.get('k') == 'Call' and (n.get('fn') or '').endswith('Arguments::<\'a>::new') and n.get('l') in lines:
+            bs = (T.peel(n['a'][0]).get('v') or {}).get('bytes')
+            if bs:
+                lits = fmt_literals(bs)
+                out[n['l']] = lits[0] if lits and bs[0] < 0x80 else ''
+    return out
+
+
+def fresh_rule(chk, fx):
+    """typestate over PyScriptGenerator's fresh-name counter: taken (read into a name) -> bumped, with nothing that can take another name in between"""
+    from sa.kinds import callgraph as CG
+    chk.rule('C17-fresh', 'generated Python names are unique: once PyScriptGenerator reads its counter fresh_var_n into a name, the counter is incremented before any call '
+                          'that can itself take a name from the counter (resolved call graph), and before the function returns; otherwise two generated functions / temporaries '
+                          'share a name and the later definition silently replaces the earlier one')
+    d = fx.file(TR)
+    fns = {T.norm(f['path']): f for f in d['fns'] if T.norm(f['path']).startswith('PyScriptGenerator::')}
+
+    def is_counter(n):
+        return n.get('k') == 'Field' and n.get('n') == COUNTER
+
+    direct = {nm for nm, f in fns.items() if any(is_counter(n) for n in T.walk(f['body']))}
+    direct.discard('PyScriptGenerator::fmt')
+    chk.floor('PyScriptGenerator methods that take fresh names', len(direct), 7)
+    g, _ = CG.graph(fx, 'erg_compiler')
+    takers = set(direct)
+    changed = True
+    while changed:
+        changed = False
+        for nm in fns:
+            if nm not in takers and any(c in takers for c in g.get(nm, ())):
+                takers.add(nm)
+                changed = True
+    chk.analysed['methods that can reach a fresh-name site'] = len(takers)
+    tpl = {nm: templates_of(fns[nm]) for nm in direct}
+    chk.floor('fresh-name templates', sum(len(v) for v in tpl.values()), 9)
+    reach_tpl = {}
+    for nm in takers:
+        rs = CG.reachable(g, [nm])
+        reach_tpl[nm] = set().union(*[set(tpl[r].values()) for r in rs if r in tpl]) if rs else set()
+    nsites = [0]
+
+    def ev(n, st, fn):
+        """evaluation-order walk; st = line of a read of the counter that has not been followed by an increment yet, or None"""
+        k = n.get('k')
+        if k == 'AssignOp' and is_counter(T.peel(n['x'])):
+            st = ev(n['y'], st, fn)
+            if st is not None:
+                chk.ok('C17-fresh', (fn, 'bumped-after-take', nsites[0]))
+            nsites[0] += 1
+            return None
+        if k == 'Assign' and is_counter(T.peel(n['x'])):
+            return ev(n['y'], st, fn)
+        if is_counter(n):
+            return n.get('l') if st is None else st
+        if k == 'If':
+            st = ev(n['c'], st, fn)
+            a = ev(n['t'], st, fn)
+            b = ev(n['e'], st, fn) if n.get('e') else st
+            return a if a is not None else b
+        if k == 'Match':
+            st = ev(n['x'], st, fn)
+            outs = []
+            for arm in n['arms']:
+                s2 = st
+                if arm.get('g'):
+                    s2 = ev(arm['g'], s2, fn)
+                outs.append(ev(arm['b'], s2, fn))
+            for o in outs:
+                if o is not None:
+                    return o
+            return None if outs else st
+        if k == 'Ret':
+            if n.get('x'):
+                st = ev(n['x'], st, fn)
+            if st is not None:
+                chk.bad('C17-fresh', fn, 'return-before-bump', '%s returns after taking a name from fresh_var_n (line %s) without incrementing the counter: the next generated name '
+                        'is the same' % (fn, st), TR, n.get('l'))
+            return None
+        for c in T.children(n):
+            if 'k' in c or 'pat' in c or 'b' in c:
+                st = ev(c, st, fn)
+        if k in ('Call', 'MCall') and st is not None:
+            cal = T.norm(T.callee(n) or '')
+            mine = {t for l, t in tpl[fn].items() if l >= st} or set(tpl[fn].values())
+            sc = SCOPED.get((fn, cal.split('::')[-1]))
+            if cal in takers and sc and mine == {sc[0]}:
+                chk.ok('C17-fresh', (fn, 'scoped', cal), sample='%s: %s' % (fn, sc[1]))
+            elif cal in takers and (mine & reach_tpl.get(cal, set()) or '' in mine):
+                chk.bad('C17-fresh', fn, 'call-before-bump:%s' % cal.split('::')[-1],
+                        '%s reads fresh_var_n into a name (line %s) and calls %s before incrementing it: a name generated inside that call is identical, so one generated '
+                        'definition overwrites the other in the emitted script' % (fn, st, cal), TR, n.get('l'))
+        return st
+
+    for nm in sorted(direct):
+        f = fns[nm]
+        st = ev(f['body'], None, nm)
+        if st is not None:
+            chk.bad('C17-fresh', nm, 'end-before-bump', '%s takes a name from fresh_var_n (line %s) and can reach its end without incrementing the counter' % (nm, st), TR, st)
+    chk.floor('counter increments after a take', nsites[0], 10)
+
+
 def run(chk):
     fx = F.Facts()
     chk.rule('C17-escape', 'every character the lexer\'s escape handlers can put into a string token that cannot stand raw inside a Python "..." literal '
@@ -71,5 +208,6 @@ def run(chk):
             chk.ok('C17-escape', 'backslash-first')
         else:
             chk.bad('C17-escape', 'PyScriptGenerator::escape_str', 'backslash-order', 'escape_str escapes the backslash after other characters: their escapes get doubled', TR, esc['line'])
+    fresh_rule(chk, fx)
     return ('Table rule across crates: the characters produced by the escape arms of the three string lexers (typed HIR) against the replace chain of PyScriptGenerator::escape_str. '
             'Behavioural equivalence of the transpiled script and the bytecode is not decided.'), {'exhaustive': True}
